@@ -117,6 +117,49 @@ def ConsumerBuilder.new (client : Option Client) (hosts : List Bytes) : Consumer
                 crc := c.cfg.crcValidation, storage := c.cfg.storage, idleTimeoutMs := c.cfg.idleTimeoutMs }
   | none => { hosts := hosts }
 
+/-- builder calls, in the order made (consumer/builder.rs:69-160) -/
+inductive CBOp
+  | group (g : Bytes)
+  | topic (t : Bytes)
+  | topicPartitions (t : Bytes) (ps : List Int)
+  | fallback (f : Fallback)
+  | fetchMaxWait (secs nanos : Nat)
+  | fetchMinBytes (n : Int)
+  | fetchMaxBytes (n : Int)
+  | retryLimit (n : Int)
+  | crc (b : Bool)
+  | storage (s : Option Storage)
+  | idleTimeout (ms : Nat)
+  | clientId (id : Bytes)
+deriving Repr
+
+def ConsumerBuilder.apply (b : ConsumerBuilder) : CBOp → ConsumerBuilder
+  | .group g => { b with group := g }
+  | .topic t => { b with assignOps := b.assignOps ++ [.topic t] }
+  | .topicPartitions t ps => { b with assignOps := b.assignOps ++ [.topicPartitions t ps] }
+  | .fallback f => { b with fallback := f }
+  | .fetchMaxWait s n => { b with fetchMaxWait := (s, n) }
+  | .fetchMinBytes n => { b with fetchMinBytes := n }
+  | .fetchMaxBytes n => { b with fetchMaxBytes := n }
+  | .retryLimit n => { b with retryLimit := n }
+  | .crc v => { b with crc := v }
+  | .storage v => { b with storage := v }
+  | .idleTimeout ms => { b with idleTimeoutMs := ms }
+  | .clientId id => { b with clientId := some id }
+
+/-- the client configuration `Builder::create` puts in force (consumer/builder.rs:248-258), or InvalidDuration -/
+def ConsumerBuilder.configure (b : ConsumerBuilder) (cfg0 : Config) : Except Err Config :=
+  match toMillisI32 b.fetchMaxWait.1 b.fetchMaxWait.2 with
+  | .error e => .error e
+  | .ok mw => .ok { cfg0 with
+      fetchMaxWait := mw
+      fetchMinBytes := b.fetchMinBytes
+      fetchMaxBytes := b.fetchMaxBytes
+      crcValidation := b.crc
+      storage := b.storage
+      idleTimeoutMs := b.idleTimeoutMs
+      clientId := b.clientId.getD cfg0.clientId }
+
 structure WC (σ : Type) where
   world : σ
   cons : Consumer
@@ -202,18 +245,9 @@ def ConsumerBuilder.create (env : Env σ) (b : ConsumerBuilder) : M σ Consumer 
   let (client0, needMd) := match b.client with
     | some c => (c, false)
     | none => (({ cfg := { hosts := b.hosts } } : Client), true)
-  match toMillisI32 b.fetchMaxWait.1 b.fetchMaxWait.2 with
+  match b.configure client0.cfg with
   | .error e => (world, .err e)
-  | .ok mw =>
-    let cfg0 := client0.cfg
-    let cfg : Config := { cfg0 with
-      fetchMaxWait := mw
-      fetchMinBytes := b.fetchMinBytes
-      fetchMaxBytes := b.fetchMaxBytes
-      crcValidation := b.crc
-      storage := b.storage
-      idleTimeoutMs := b.idleTimeoutMs
-      clientId := b.clientId.getD cfg0.clientId }
+  | .ok cfg =>
     let client : Client := { client0 with cfg := cfg }
     let as := assignmentsFromMap amap
     let m : CM σ (List (TP × Consumed) × List (TP × FetchState)) := do
